@@ -19,6 +19,7 @@ import (
 	"github.com/prometheus/prometheus/promql/parser"
 	"strings"
 	"time"
+	"unicode/utf8"
 )
 
 type QueryLabelsService struct {
@@ -184,7 +185,16 @@ func (q *QueryLabelsService) Prom2LogqlMatch(match string) (string, error) {
 	matchers := getMatchers(rq.Statement())
 	strMatchers := make([]string, len(matchers))
 	for i, m := range matchers {
-		strMatchers[i] = m.String()
+		// the LogQL parser reads a string literal as a JSON string: Go quoting (m.String(): \x1b, \a, \v, \U..) is not one
+		if !utf8.ValidString(m.Value) {
+			// a JSON string cannot carry it (it would silently become U+FFFD)
+			return "", fmt.Errorf("the value of the matcher on %s is not valid UTF-8", m.Name)
+		}
+		val, err := json.Marshal(m.Value)
+		if err != nil {
+			return "", err
+		}
+		strMatchers[i] = m.Name + m.Type.String() + string(val)
 	}
 	return fmt.Sprintf("{%s}", strings.Join(strMatchers, ",")), nil
 }
